@@ -112,7 +112,9 @@ def merge_once(ctx, d, rng, variant):
     steps = []
     written = set()
     for name in STEPS:
-        orig = getattr(mg, name)
+        orig = getattr(mg, name, None)
+        if orig is None:
+            continue                       # a renamed step cannot be wrapped: only the result is judged
 
         def wrapped(orig=orig, name=name):
             steps.append(name)
@@ -131,6 +133,9 @@ def merge_once(ctx, d, rng, variant):
     finally:
         m.close()
     after = [dir_digest(s) for s in subdirs]
+
+    if not written:
+        written.update(x.name for x in out_dir.iterdir())      # (write_misc could not be wrapped)
 
     def load(name):
         p = out_dir / name
@@ -188,6 +193,9 @@ def run(ctx, prop):
     zero = {r['id']: r.pop('_zero_x') for r in recs}
     for chunk in [recs[a:a + 100] for a in range(0, len(recs), 100)]:
         for rid, clause in ctx.validate('Trace_Merge', 'Trace_Merge.cfg', chunk, timeout=3000):
+            if clause.startswith('I.'):
+                ctx.note('transcription', 'the merger output differs from the transcription: clause %s' % clause)
+                continue
             if not clause.startswith(prop + '.'):
                 continue                      # belongs to the other property's check
             r = recs[rid - 1]
